@@ -1114,8 +1114,8 @@ pub fn c10(ctx: &mut Ctx) {
 // ------------------------------------------------------------------------------------------------
 // C19: determinism and freedom from side effects
 
-const FAILING: &[&str] = &["//*[nosuch()]", "//*[count(1)]", "//*[$v]", "//*[zz:a]", "//*['a' | *]", "//*[string-length(1,2)]", "//*[*[*[nosuch()] or nosuch()]]", "(//*)[nosuch()]", "(//node())[position() = nosuch()]", "//*[position() = 1][nosuch()]", "//*[1][count('x')]", "count(//*[nosuch()])", "//*[not(nosuch())]/..", "//*[last() = nosuch()]", "//@*[sum(1)]", "//*[id('x')]", "//node()[self::zz:*]", "(//*[1])[count(2)]", "//*[concat('a')]", "//*[true(1)]", "//*[", "//*[1", "((", "//*[)]", "1 +", "//*[1]/[2]", "@", "//*[substring()]", "//*[text()[nosuch()]]", "//text()[nosuch()]", "//*[@*[nosuch()]]"];
-const PROBES: &[&str] = &["position()", "last()", "position() + last()", "string(position())", "//*[position() = last()]", "count(//*)", "//*[1]", "(//*)[last()]", "//*[last()]", "/*[position()]"];
+const FAILING: &[&str] = &["//*[nosuch()]", "//*[count(1)]", "//*[$v]", "//*[zz:a]", "//*['a' | *]", "//*[string-length(1,2)]", "//*[*[*[nosuch()] or nosuch()]]", "(//*)[nosuch()]", "(//node())[position() = nosuch()]", "//*[position() = 1][nosuch()]", "//*[1][count('x')]", "count(//*[nosuch()])", "//*[not(nosuch())]/..", "//*[last() = nosuch()]", "//@*[sum(1)]", "//*[id('x')]", "//node()[self::zz:*]", "(//*[1])[count(2)]", "//*[concat('a')]", "//*[true(1)]", "//*[", "//*[1", "((", "//*[)]", "1 +", "//*[1]/[2]", "@", "//*[substring()]", "//*[text()[nosuch()]]", "//text()[nosuch()]", "//*[@*[nosuch()]]", "//*[zz:f(.)]", "zz:f()", "//zz:*", "//@zz:a", "//*[zz:f(1) or nosuch()]", "//*[nosuch:f()]", "count(zz:f(1))", "//*[name(zz:a)]", "//@xml:nosuch[nosuch()]"];
+const PROBES: &[&str] = &["position()", "last()", "position() + last()", "string(position())", "//*[position() = last()]", "count(//*)", "//*[1]", "(//*)[last()]", "//*[last()]", "/*[position()]", "//@xml:*", "//@xml:lang", "//*[@xml:lang]", "count(//@xml:*)", "//*[lang('en')]", "name(/*)", "//*[@xml:space]", "/*/*", "//*/@*", "count(//node())", "//*[name() = name(/*)]", "xml:*", "/*[xml:x]"];
 
 fn order_snapshot(s: &Subject) -> Vec<(String, usize)> {
     // order keys of every mapped node, by locator
@@ -1167,8 +1167,13 @@ pub fn c19(ctx: &mut Ctx) {
         let dump0 = crate::obs::dump_tree(&subj.dom, OPT_NS).unwrap_or_default();
         let ord0 = order_snapshot(&subj);
         let mut g = XGen::for_doc(&doc); g.allow_pi_literal = true; g.funcs.retain(|f| *f != "id");
-        let mut shared = XContext::default();
-        for (p, u) in &ns { shared.add_ns(Some(p.as_str()), u.as_str()); }
+        // caller bindings: all of the document's prefixes, or only some of them (so that "prefix not declared"
+        // failures occur inside ordinary expressions too), with or without a default namespace
+        if r.chance(1, 3) { let keep = r.below(ns.len() + 1); ns.truncate(keep); }
+        let default_ns: Option<String> = match r.below(4) { 0 => Some(match ns.first() { Some(x) if r.chance(1, 2) => x.1.clone(), _ => r.pick_s(&["urn:a", "urn:none", "http://e/x"]).to_string() }), _ => None };
+        let fresh_cx = |ns: &[(String, String)]| { let mut c = XContext::default(); for (p, u) in ns { c.add_ns(Some(p.as_str()), u.as_str()); } if let Some(d) = &default_ns { c.add_ns(None, d.as_str()); } c };
+        ctx.count(if default_ns.is_some() { "context/default-namespace" } else { "context/no-default-namespace" });
+        let mut shared = fresh_cx(&ns);
         let nq = r.range(2, if ctx.thorough { 30 } else { 20 });
         let mut seq: Vec<String> = vec![];
         for q in 0..nq {
@@ -1183,8 +1188,8 @@ pub fn c19(ctx: &mut Ctx) {
             if matches!(o_shared, Outcome::Panic(_) | Outcome::Steps) { ctx.count("totality-failure(see C06)"); break; }
             ctx.count(if matches!(o_shared, Outcome::Err(_)) { "query/error" } else { "query/value" });
             let (ds, dp) = shared.verif_depths();
-            if ds != 0 || dp != 0 { ctx.violation(d, &format!("C19/ctx/leak/{}", if ds != 0 { "size" } else { "position" }), &format!("after {:?} the context stacks have depths size={} position={} :: sequence {:?} :: doc {}", estr, ds, dp, seq, text), &[("doc", &text), ("expr", &estr)]); shared = XContext::default(); for (p, u) in &ns { shared.add_ns(Some(p.as_str()), u.as_str()); } }
-            let (o_fresh, _) = xmlrs_eval(&subj, &estr, &ns, None, STEP_BUDGET);
+            if ds != 0 || dp != 0 { ctx.violation(d, &format!("C19/ctx/leak/{}", if ds != 0 { "size" } else { "position" }), &format!("after {:?} the context stacks have depths size={} position={} :: sequence {:?} :: doc {}", estr, ds, dp, seq, text), &[("doc", &text), ("expr", &estr)]); shared = fresh_cx(&ns); }
+            let (o_fresh, _) = xmlrs_eval(&subj, &estr, &ns, default_ns.as_deref(), STEP_BUDGET);
             if let Some(kind) = diff(&o_fresh, &o_shared) { ctx.violation(d, &format!("C19/ctx/answer-differs/{}", kind), &format!("query #{} {:?}: fresh context {} shared context {} :: sequence {:?} :: doc {}", q, estr, o_fresh.brief(), o_shared.brief(), seq, text), &[("doc", &text), ("expr", &estr), ("sequence", &seq.join("\n"))]); }
             let (o_again, _) = xmlrs_eval_cx(&subj, &estr, &mut shared, STEP_BUDGET);
             if let Some(kind) = diff(&o_shared, &o_again) { ctx.violation(d, &format!("C19/repeat/{}", kind), &format!("{:?} first {} second {} :: doc {}", estr, o_shared.brief(), o_again.brief(), text), &[("doc", &text), ("expr", &estr)]); }
@@ -1232,13 +1237,16 @@ fn _unused(_: &Step, _: &Start, _: &Test, _: Op, _: RKind) {}
 
 /// diagnostic aid: `xv probe <doc> <expr> [p=uri ...]`
 pub fn probe(text: &str, expr: &str, nsargs: &[String]) {
-    let ns: Vec<(String, String)> = nsargs.iter().filter_map(|a| a.split_once('=').map(|(p, u)| (p.to_string(), u.to_string()))).collect();
+    // "p=uri" binds a prefix, "=uri" sets the default namespace of the xml-rs context
+    let all: Vec<(String, String)> = nsargs.iter().filter_map(|a| a.split_once('=').map(|(p, u)| (p.to_string(), u.to_string()))).collect();
+    let default_ns: Option<String> = all.iter().find(|x| x.0.is_empty()).map(|x| x.1.clone());
+    let ns: Vec<(String, String)> = all.into_iter().filter(|x| !x.0.is_empty()).collect();
     match subject(text, true) {
-        Ok(s) => { let (o, steps) = xmlrs_eval(&s, expr, &ns, None, STEP_BUDGET); println!("xml-rs merged: {}  [{} steps]", o.brief(), steps); }
+        Ok(s) => { let (o, steps) = xmlrs_eval(&s, expr, &ns, default_ns.as_deref(), STEP_BUDGET); println!("xml-rs merged: {}  [{} steps]", o.brief(), steps); }
         Err(e) => println!("xml-rs merged: document not usable: {}", e),
     }
     match subject(text, false) {
-        Ok(s) => { let (o, steps) = xmlrs_eval(&s, expr, &ns, None, STEP_BUDGET); println!("xml-rs raw   : {}  [{} steps]", o.brief(), steps); }
+        Ok(s) => { let (o, steps) = xmlrs_eval(&s, expr, &ns, default_ns.as_deref(), STEP_BUDGET); println!("xml-rs raw   : {}  [{} steps]", o.brief(), steps); }
         Err(e) => println!("xml-rs raw   : document not usable: {}", e),
     }
     match lib_eval(text, expr, &ns) { Some(o) => println!("libxml2      : {}", o.brief()), None => println!("libxml2      : n/a") }
